@@ -110,5 +110,6 @@ def run(ctx):
     _gf5(ctx, [('COUNT-NARROW', lambda c_, p_: count_narrow(c_, p_, _Ef5(p_), fns=[g_ for g_ in p_.all_fns() if g_.name.endswith('_countnarrow')]), 'bad_countnarrow')])
 
     from engine.run import borrow
+    borrow(ctx, 'C06', ['BLOCK-SEEK'], 'after sf_seek (k) the position reported and the data delivered must be frame k: a block codec seek that positions the file at another block than the one it records delivers other frames')
     borrow(ctx, 'C03', ['TABLE-INDEX'], 'a write call whose sample value steers a table subscript outside the table reads memory outside anything the caller supplied (G.711 float encoders)')
     borrow(ctx, 'C11', ['BLOCK-RESTORE'], 'items a write call has accepted (w = requested) must reach the file: a header refresh that loses the codec\'s fill count makes the next write overwrite them')
